@@ -13,8 +13,8 @@ mkdir -p "$DST"
 LOG="$DST/confirm.log"
 : > "$LOG"
 git -C /repo worktree remove --force "$WT" >/dev/null 2>&1; rm -rf "$WT"
-git -C /repo worktree add --detach "$WT" HEAD >/dev/null 2>&1 || { echo "worktree failed" | tee -a "$LOG"; exit 3; }
-echo "base=$(git -C /repo rev-parse --short HEAD)" >> "$LOG"
+git -C /repo worktree add --detach "$WT" "${BASE:-HEAD}" >/dev/null 2>&1 || { echo "worktree failed" | tee -a "$LOG"; exit 3; }
+echo "base=$(git -C "$WT" rev-parse --short HEAD)" >> "$LOG"
 cd "$WT"
 export PYTHONPATH="$WT" PYTHONHASHSEED=0 PATH=/venv/bin:$PATH
 timeout 1800 /venv/bin/python "$SRC/demo$K.py" > "$DST/demo-clean.out" 2>&1; echo "demo_without_patch_exit=$?" >> "$LOG"
